@@ -552,9 +552,15 @@ class Dynamic(Parameter):
         """
         super().__set__(obj,val)
 
-        dynamic = callable(val)
-        if dynamic: self._initialize_generator(val,obj)
-        if obj is None: self._set_instantiate(dynamic)
+        if obj is None: self._set_instantiate(callable(val))
+
+
+    def _post_setter(self, obj, val):
+        # The generator is set up as soon as the value is stored, before the
+        # watchers are called: a watcher reading the parameter gets a
+        # produced value, like everybody else, not the raw callable
+        if callable(val): self._initialize_generator(val,obj)
+        super()._post_setter(obj, val)
 
 
     def _produce_value(self,gen,force=False):
